@@ -101,11 +101,16 @@ type driver struct {
 	cfg        *propCfg
 	budget     time.Duration
 	only       map[string]bool
+	flaky      bool
 	bdir       string
 	work       string
 	bins       map[string]string
 	t0         time.Time
 }
+
+// outdir is where evidence and replay files go (the verification root, unless
+// a development run against a scratch tree redirects it).
+func (d *driver) outdir() string { return envOr("VERIF_OUTDIR", d.root) }
 
 func (d *driver) fatal(format string, a ...any) int {
 	fmt.Fprintf(os.Stderr, "HARNESS-ERROR property=%s: %s\n", d.prop, fmt.Sprintf(format, a...))
@@ -437,12 +442,25 @@ func (d *driver) check() int {
 
 	// 1. determinism self-test: the same seeds in two processes with
 	// different GOMAXPROCS must give the same trace digests
-	stSeeds, stMismatch, err := d.selftest(active)
+	stSeeds, stMis, err := d.selftest(active)
 	if err != nil {
 		return d.fatal("determinism self-test: %v", err)
 	}
-	if stMismatch > 0 {
-		return d.fatal("simulator nondeterminism: %d of %d self-test runs diverged", stMismatch, stSeeds)
+	stMismatch := 0
+	for b, n := range stMis {
+		if strings.HasPrefix(b, "instr") {
+			// every goroutine of the instrumented build is under the kernel's
+			// control: a divergence there is a simulator defect
+			return d.fatal("simulator nondeterminism: %d self-test runs diverged on the %s build", n, b)
+		}
+		// The unmodified tree lets a newborn goroutine run beside its parent
+		// until its first seam. On the pinned tree that window holds no
+		// conflicting accesses and runs are deterministic; a changed tree can
+		// put a real race there. That is not simulator trouble: carry on, and
+		// require findings of these builds to reproduce before reporting.
+		fmt.Printf("[%s] note: %d self-test runs diverged on the %s build (uncontrolled goroutine-birth window in the unmodified tree)\n", d.prop, n, b)
+		d.flaky = true
+		stMismatch += n
 	}
 
 	// 2. the batch
@@ -478,8 +496,8 @@ func (d *driver) check() int {
 					return
 				}
 				ns := 0
-				if i < 3 {
-					ns = 1
+				if i == 0 || slots[i-1].build != build {
+					ns = 1 // one written-out sample per build
 				}
 				w.send(map[string]any{"op": "range", "prop": d.prop, "tier": d.tier, "base": d.seed, "from": from, "stride": stride, "until_ms": until.UnixMilli(), "samples": ns})
 				recs, crashed, hung := w.finish(time.Until(until) + 90*time.Second)
@@ -545,13 +563,13 @@ func (d *driver) check() int {
 
 	// 4. violations: known finding, or confirm + minimise + report
 	known := d.known()
-	seenSig := map[string]bool{}
 	exit := 0
 	nviol := 0
 	sort.Slice(viols, func(i, j int) bool { return viols[i].res.Seed < viols[j].res.Seed })
 	knownPrinted := map[string]bool{}
+	groups := map[string][]violation{}
+	var order []string
 	for _, v := range viols {
-		key := v.res.Oracle + "/" + v.res.Sig
 		if f, ok := known[v.res.Sig]; ok {
 			if !knownPrinted[v.res.Sig] {
 				knownPrinted[v.res.Sig] = true
@@ -559,23 +577,52 @@ func (d *driver) check() int {
 			}
 			continue
 		}
-		if seenSig[key] {
-			nviol++
+		key := v.res.Oracle + "/" + v.res.Sig
+		if groups[key] == nil {
+			order = append(order, key)
+		}
+		groups[key] = append(groups[key], v)
+	}
+	for _, key := range order {
+		g := groups[key]
+		// prefer findings of the fully controlled builds
+		sort.SliceStable(g, func(i, j int) bool {
+			return strings.HasPrefix(g[i].build, "instr") && !strings.HasPrefix(g[j].build, "instr")
+		})
+		reported := false
+		soft := true // every candidate came from a source that may legitimately not replay
+		for i, v := range g {
+			if i >= 6 {
+				break
+			}
+			path, confirmed, herr := d.report(v)
+			if herr != nil {
+				return d.fatal("%v", herr)
+			}
+			if !confirmed {
+				if !strings.HasPrefix(v.build, "pristine") && v.res.Oracle != "S8" {
+					soft = false
+				}
+				continue
+			}
+			nviol += len(g)
+			exit = 1
+			reported = true
+			fmt.Printf("VIOLATION property=%s replay=%s\n", d.prop, path)
+			fmt.Printf("  oracle %s (%s), %d run(s): %s\n", v.res.Oracle, v.res.Sig, len(g), firstLine(v.res.Msg))
+			break
+		}
+		if reported {
 			continue
 		}
-		seenSig[key] = true
-		path, confirmed, herr := d.report(v)
-		if herr != nil {
-			return d.fatal("%v", herr)
-		}
-		if !confirmed {
+		if !soft {
 			d.writeEvidence(ev, nviol)
-			return d.fatal("a violation (%s: %s) did not reproduce when replayed in a fresh process: simulator nondeterminism", key, firstLine(v.res.Msg))
+			return d.fatal("a violation (%s: %s) did not reproduce when replayed in a fresh process: simulator nondeterminism", key, firstLine(g[0].res.Msg))
 		}
-		nviol++
-		exit = 1
-		fmt.Printf("VIOLATION property=%s replay=%s\n", d.prop, path)
-		fmt.Printf("  oracle %s (%s): %s\n", v.res.Oracle, v.res.Sig, firstLine(v.res.Msg))
+		// findings of the unmodified-tree builds (uncontrolled goroutine-birth
+		// window) and race reports (detector state) are only reported when a
+		// replay reproduces them
+		fmt.Printf("[%s] note: %d finding(s) %s did not reproduce on replay and are not reported: %s\n", d.prop, len(g), key, firstLine(g[0].res.Msg))
 	}
 	d.writeEvidence(ev, nviol)
 	if exit == 0 {
@@ -604,7 +651,8 @@ func readJournal(path string) uint64 {
 
 // selftest runs a sample of seeds twice per build, in separate processes with
 // different GOMAXPROCS, and compares digests and verdicts.
-func (d *driver) selftest(active []string) (n int, mismatches int, err error) {
+func (d *driver) selftest(active []string) (n int, mismatches map[string]int, err error) {
+	mismatches = map[string]int{}
 	nseeds := 12
 	if d.tier == "thorough" {
 		nseeds = 48
@@ -650,20 +698,29 @@ func (d *driver) selftest(active []string) (n int, mismatches int, err error) {
 					}
 					res := &core.Result{}
 					json.Unmarshal(r["result"], res)
-					got[key{b, res.Seed}] = append(got[key{b, res.Seed}], fmt.Sprintf("%x/%s/%s", res.Digest, res.Verdict, res.Oracle))
+					vd := res.Verdict + "/" + res.Oracle
+					if res.Oracle == "S8" {
+						// whether the race detector still holds the earlier
+						// access when the later one happens depends on its
+						// shadow-memory state, not only on the schedule: a
+						// report is sound when it appears, its absence is not
+						// compared
+						vd = "ok/"
+					}
+					got[key{b, res.Seed}] = append(got[key{b, res.Seed}], fmt.Sprintf("%x/%s", res.Digest, vd))
 				}
 			}(id, b, gm)
 		}
 	}
 	wg.Wait()
 	if firstErr != nil {
-		return 0, 0, firstErr
+		return 0, nil, firstErr
 	}
-	for _, v := range got {
+	for k, v := range got {
 		n += len(v)
 		for _, x := range v[1:] {
 			if x != v[0] {
-				mismatches++
+				mismatches[k.b]++
 			}
 		}
 	}
@@ -801,8 +858,8 @@ func (d *driver) writeEvidence(ev *evidence, violations int) {
 		"violations":  violations,
 	}
 	b, _ := json.MarshalIndent(out, "", " ")
-	os.MkdirAll(filepath.Join(d.root, "evidence"), 0o755)
-	os.WriteFile(filepath.Join(d.root, "evidence", d.prop+".json"), append(b, '\n'), 0o644)
+	os.MkdirAll(filepath.Join(d.outdir(), "evidence"), 0o755)
+	os.WriteFile(filepath.Join(d.outdir(), "evidence", d.prop+".json"), append(b, '\n'), 0o644)
 }
 
 // ---------------------------------------------------------------- reporting
@@ -843,6 +900,15 @@ func (d *driver) report(v violation) (path string, confirmed bool, err error) {
 	}
 	if !same(r, crash) {
 		return "", false, nil
+	}
+	if strings.HasPrefix(v.build, "pristine") {
+		// must reproduce every time, not just once
+		for i := 0; i < 3; i++ {
+			r2, c2, e := d.runScenario(v.build, raw, true)
+			if e != nil || !same(r2, c2) {
+				return "", false, nil
+			}
+		}
 	}
 	best, bestRes, bestCrash := raw, r, crash
 	steps := 0
@@ -893,7 +959,7 @@ func (d *driver) report(v violation) (path string, confirmed bool, err error) {
 	} else {
 		rf.Message = v.res.Msg
 	}
-	dir := filepath.Join(d.root, "replays", d.prop)
+	dir := filepath.Join(d.outdir(), "replays", d.prop)
 	os.MkdirAll(dir, 0o755)
 	path = filepath.Join(dir, fmt.Sprintf("%s-%s-%d.json", v.res.Oracle, sanitize(v.res.Sig), v.res.Seed))
 	rf.How = fmt.Sprintf("cd %s && ./check %s --replay %s", d.root, d.prop, path)
